@@ -65,19 +65,6 @@ structure Distinct (b : Bucket) : Prop where
   r : b.replacements.Nodup
   disj : ∀ n ∈ b.entries, n ∉ b.replacements
 
-/-- nodes are parked only while the bucket is full -/
-def FullIfParked (b : Bucket) : Prop := b.replacements ≠ [] → b.entries.length = bucketSize
-
-/-- inserting `n` now would not put a parked node into `entries` -/
-def ParkedFree (b : Bucket) (n : Nat) : Prop :=
-  n ∈ b.replacements → n ∈ b.entries ∨ bucketSize ≤ b.entries.length
-
-theorem parkedFree_of_full {b : Bucket} (h : FullIfParked b) (n : Nat) : ParkedFree b n := by
-  intro hn
-  right
-  have : b.replacements ≠ [] := by intro e; rw [e] at hn; cases hn
-  exact Nat.le_of_eq (h this).symm
-
 /-! #### bump -/
 
 theorem bump_binv {dist self i} {b : Bucket} (n : Nat) (h : BInv dist self i b) : BInv dist self i (bump b n).1 := by
@@ -124,9 +111,6 @@ theorem bump_distinct {b : Bucket} (n : Nat) (h : Distinct b) : Distinct (bump b
       · exact h.disj _ (List.mem_of_mem_erase hx)
   · exact h
 
-theorem bump_full {b : Bucket} (n : Nat) (h : FullIfParked b) : FullIfParked (bump b n).1 := by
-  unfold FullIfParked; rw [bump_repl, bump_len]; exact h
-
 /-! #### add -/
 
 theorem addB_binv {dist self i} {b : Bucket} {n : Nat} (h : BInv dist self i b) (hd : dist n = i) (hs : n ≠ self) :
@@ -136,13 +120,16 @@ theorem addB_binv {dist self i} {b : Bucket} {n : Nat} (h : BInv dist self i b) 
   · exact bump_binv n h
   · split
     · rename_i hlt
-      refine ⟨?_, ?_, ?_, h.rLen, h.rDist, h.rSelf⟩
-      · simp; unfold bucketSize at *; omega
-      · intro x hx; simp at hx
+      have hfl := List.length_filter_le (· ≠ n) b.replacements
+      have := h.rLen
+      refine ⟨?_, ?_, ?_, by simp only; omega, fun x hx => h.rDist _ (mem_filter_ne.mp hx).1,
+        fun hx => h.rSelf (mem_filter_ne.mp hx).1⟩
+      · simp only [List.length_cons]; unfold bucketSize at *; omega
+      · intro x hx; simp only [List.mem_cons] at hx
         rcases hx with rfl | hx
         · exact hd
         · exact h.eDist _ hx
-      · intro hm; simp at hm
+      · intro hm; simp only [List.mem_cons] at hm
         rcases hm with rfl | hm
         · exact hs rfl
         · exact h.eSelf hm
@@ -177,24 +164,20 @@ theorem addB_len (b : Bucket) (n : Nat) : ((addB b n).1.entries.length : Int) = 
     · simp
     · simp
 
-theorem addB_distinct {b : Bucket} {n : Nat} (h : Distinct b) (hp : ParkedFree b n) : Distinct (addB b n).1 := by
+theorem addB_distinct {b : Bucket} {n : Nat} (h : Distinct b) : Distinct (addB b n).1 := by
   unfold addB
   split
   · exact bump_distinct n h
   · rename_i hne
     split
     · rename_i hlt
-      have hnr : n ∉ b.replacements := by
-        intro hr
-        rcases hp hr with h1 | h2
-        · exact hne h1
-        · omega
-      refine ⟨?_, h.r, ?_⟩
+      refine ⟨?_, h.r.sublist List.filter_sublist, ?_⟩
       · simp only [List.nodup_cons]; exact ⟨hne, h.e⟩
-      · intro x hx; simp at hx
+      · intro x hx hr; simp only [List.mem_cons] at hx
+        have hr' := mem_filter_ne.mp hr
         rcases hx with rfl | hx
-        · exact hnr
-        · exact h.disj _ hx
+        · exact hr'.2 rfl
+        · exact h.disj _ hx hr'.1
     · have hnd : ((b.replacements.filter (· ≠ n)) ++ [n]).Nodup := by
         rw [List.nodup_append]
         refine ⟨h.r.sublist List.filter_sublist, by simp, ?_⟩
@@ -219,17 +202,6 @@ theorem addB_distinct {b : Bucket} {n : Nat} (h : Distinct b) (hp : ParkedFree b
         · exact h.disj x hx h1
         · exact hne hx
 
-theorem addB_full {b : Bucket} {n : Nat} (hl : b.entries.length ≤ bucketSize) (h : FullIfParked b) : FullIfParked (addB b n).1 := by
-  unfold addB
-  split
-  · exact bump_full n h
-  · split
-    · rename_i hlt
-      intro hr; simp only at hr
-      have := h hr
-      omega
-    · intro _; simp only; omega
-
 /-! #### stuff -/
 
 theorem stuffB_binv {dist self i} {b : Bucket} {n : Nat} (h : BInv dist self i b) (hd : dist n = i) (hs : n ≠ self) :
@@ -239,13 +211,16 @@ theorem stuffB_binv {dist self i} {b : Bucket} {n : Nat} (h : BInv dist self i b
   · exact h
   · split
     · rename_i hlt
-      refine ⟨?_, ?_, ?_, h.rLen, h.rDist, h.rSelf⟩
-      · simp; unfold bucketSize at *; omega
-      · intro x hx; simp at hx
+      have hfl := List.length_filter_le (· ≠ n) b.replacements
+      have := h.rLen
+      refine ⟨?_, ?_, ?_, by simp only; omega, fun x hx => h.rDist _ (mem_filter_ne.mp hx).1,
+        fun hx => h.rSelf (mem_filter_ne.mp hx).1⟩
+      · simp only [List.length_append, List.length_cons, List.length_nil]; unfold bucketSize at *; omega
+      · intro x hx; simp only [List.mem_append, List.mem_singleton] at hx
         rcases hx with hx | rfl
         · exact h.eDist _ hx
         · exact hd
-      · intro hm; simp at hm
+      · intro hm; simp only [List.mem_append, List.mem_singleton] at hm
         rcases hm with hm | rfl
         · exact h.eSelf hm
         · exact hs rfl
@@ -257,62 +232,24 @@ theorem stuffB_len (b : Bucket) (n : Nat) : ((stuffB b n).1.entries.length : Int
   · simp
   · split <;> simp
 
-theorem stuffB_distinct {b : Bucket} {n : Nat} (h : Distinct b) (hp : ParkedFree b n) : Distinct (stuffB b n).1 := by
+theorem stuffB_distinct {b : Bucket} {n : Nat} (h : Distinct b) : Distinct (stuffB b n).1 := by
   unfold stuffB
   split
   · exact h
   · rename_i hne
     split
     · rename_i hlt
-      have hnr : n ∉ b.replacements := by
-        intro hr
-        rcases hp hr with h1 | h2
-        · exact hne h1
-        · omega
-      refine ⟨?_, h.r, ?_⟩
+      refine ⟨?_, h.r.sublist List.filter_sublist, ?_⟩
       · rw [List.nodup_append]
         refine ⟨h.e, by simp, ?_⟩
         intro a ha c hc; simp at hc; subst hc
         intro e; subst e; exact hne ha
-      · intro x hx; simp at hx
+      · intro x hx hr; simp only [List.mem_append, List.mem_singleton] at hx
+        have hr' := mem_filter_ne.mp hr
         rcases hx with hx | rfl
-        · exact h.disj _ hx
-        · exact hnr
+        · exact h.disj _ hx hr'.1
+        · exact hr'.2 rfl
     · exact h
-
-theorem stuffB_full {b : Bucket} {n : Nat} (h : FullIfParked b) : FullIfParked (stuffB b n).1 := by
-  unfold stuffB
-  split
-  · exact h
-  · split
-    · rename_i hlt
-      intro hr; simp only at hr
-      have := h hr
-      omega
-    · exact h
-
-theorem stuffB_repl (b : Bucket) (n : Nat) : (stuffB b n).1.replacements = b.replacements := by
-  unfold stuffB; split
-  · rfl
-  · split <;> rfl
-
-/-- entries only grow during `stuff` -/
-theorem stuffB_mono (b : Bucket) (n : Nat) :
-    (∀ x ∈ b.entries, x ∈ (stuffB b n).1.entries) ∧ b.entries.length ≤ (stuffB b n).1.entries.length := by
-  unfold stuffB
-  split
-  · simp
-  · split
-    · simp; intro x hx; exact Or.inl hx
-    · simp
-
-theorem stuffB_parkedFree {b : Bucket} {n m : Nat} (h : ParkedFree b m) : ParkedFree (stuffB b n).1 m := by
-  intro hr
-  rw [stuffB_repl] at hr
-  have ⟨m1, m2⟩ := stuffB_mono b n
-  rcases h hr with h1 | h2
-  · exact Or.inl (m1 _ h1)
-  · exact Or.inr (Nat.le_trans h2 m2)
 
 /-! #### delete -/
 
@@ -414,25 +351,6 @@ theorem deleteReplaceB_distinct {b : Bucket} (n : Nat) (h : Distinct b) : Distin
         · exact h.disj x hx.1 (mem_filter_ne.mp (mem_of_mem_dropLast' hr)).1
     · exact plain
   · exact plain
-
-theorem deleteReplaceB_full {b : Bucket} (n : Nat) (hl : b.entries.length ≤ bucketSize) (hd : Distinct b) (h : FullIfParked b) :
-    FullIfParked (deleteReplaceB b n).1 := by
-  have hcount := filter_ne_length_nodup b.entries n hd.e
-  have hel := List.length_filter_le (· ≠ n) b.entries
-  unfold deleteReplaceB
-  simp only
-  split
-  · rename_i last hlast
-    have hrne : b.replacements ≠ [] := by
-      intro e; rw [e] at hlast; simp at hlast
-    have hfull := h hrne
-    split
-    · intro _; simp only [List.length_cons]; unfold bucketSize at *; omega
-    · rename_i hge
-      intro _; simp only [ne_eq, decide_not] at *; unfold bucketSize at *; omega
-  · rename_i hnone
-    intro hr; simp only at hr
-    exact absurd (List.getLast?_eq_none_iff.mp hnone) hr
 
 /-! ### table level -/
 
